@@ -431,7 +431,7 @@ def run_c10(chk, tier, seed):
     cands = cands_for(SMALL, rich=False)
     q, e = c10_units(th)
     defs = [f"Q == {set_of(q)}", f"E == {set_of(e)}"]
-    k = 4 if th else 3
+    k = 5 if th else 3
     run_projection(chk, "C10", "framing", ft, cands, defs, "Q \\cup E", "Q \\cup E", k, ENDINGS, [-1])
     chk.cov["exhaustive"] = True
     chk.cov["rule"] = (f"every message of <= {k} units over {len(q)} query units (1-3 data of several types incl. ';' and ',' inside strings/blocks, with/without response header) and {len(e)} non-query units "
